@@ -692,12 +692,30 @@ func checkFilesTravel(c *Ctx) {
 	c.Check(okEntries, "R4.4", "operationPack.makeExtraTree:entries", w.FnPos(mk), "one tree entry per attached file hash", "the extra tree entries do not point at the operations' files")
 	// Write: StoreTree(extraTree) result is the Hash of an entry appended to tree, before the final StoreTree
 	okW := false
+	whyCond := ""
 	for _, cl := range Calls(wr) {
 		if !strings.HasSuffix(cl.Name, ".StoreTree") {
 			continue
 		}
 		if hasOriginCall(cl.Args()[0], "entity/dag.operationPack.makeExtraTree", -1) == nil {
 			continue
+		}
+		// the extra tree is stored whenever it has entries: the only condition is on its length
+		for _, cc := range controlConds(cl.Block(), nil) {
+			okCond := false
+			if bo, isBo := cc.If.Cond.(*ssa.BinOp); isBo {
+				if lc, isCall := bo.X.(*ssa.Call); isCall {
+					if bi, isB := lc.Common().Value.(*ssa.Builtin); isB && bi.Name() == "len" && hasOriginCall(lc.Common().Args[0], "entity/dag.operationPack.makeExtraTree", -1) != nil {
+						okCond = true
+					}
+				}
+				if isErrorType(bo.X.Type()) {
+					okCond = true // a previous step succeeded
+				}
+			}
+			if !okCond {
+				whyCond = "storing the tree of attached files is additionally conditional on " + w.InstrPos(cc.If) + ": the files attached by some packs are not referenced from their commit, git does not transfer them and gc deletes them"
+			}
 		}
 		// its result is stored in a TreeEntry.Hash that is appended to the slice passed to another StoreTree
 		for _, b := range wr.Blocks {
@@ -713,6 +731,7 @@ func checkFilesTravel(c *Ctx) {
 		}
 	}
 	c.Check(okW, "R4.4", "operationPack.Write:extra-tree-referenced", w.FnPos(wr), "the stored extra tree is referenced from the commit's tree", "the tree of attached files is not stored or not referenced from the commit tree")
+	c.Check(whyCond == "", "R4.4", "operationPack.Write:extra-tree-whenever-files", w.FnPos(wr), "stored whenever there are attached files", whyCond)
 }
 
 func unconditionalInLoopExceptOk(w *World, ins ssa.Instruction) bool {
